@@ -574,6 +574,30 @@ def section_product():
                         a, b = P0[(i, j) + n], P1[(i, j) + n]
                         if not np.allclose(dense(a, (dims[i], dims[j])), dense(b, (dims[i], dims[j]))):
                             fail("product", "hermitian=True changes a value of a Hermitian product of adjoint pairs", factors=len(fs), index=(i, j) + n)
+    # the same with OBJECT-dtype element arrays holding exact complex numbers (Python complex, sympy numbers): the adjoint of a term conjugates whatever the dtype says
+    import sympy as _spo
+    for ename, conv in (("python complex in object arrays", lambda v: v.astype(object)),
+                        ("sympy numbers in object arrays", lambda v: np.array([[_spo.Integer(int(x.real)) + _spo.I * int(x.imag) for x in row] for row in v], dtype=object))):
+        ninf, maxo, nb, dims = 1, 3, 2, [2, 1]
+        A0 = mkseries(nb, nb, (dims, dims), ninf, maxo, 0.2, with_one=True)
+        A = BlockSeries(data={k: (v if (v is zero or v is one) else conv(np.asarray(v))) for k, v in A0._data.items()}, shape=(nb, nb), n_infinite=ninf)
+        Ad = BlockSeries(eval=lambda *idx: (lambda v: v if v is zero or v is one else v.conj().T)(A[(idx[1], idx[0]) + tuple(idx[2:])]), shape=(nb, nb), n_infinite=ninf)
+        P0 = cauchy_dot_product(Ad, A, hermitian=False)
+        P1 = cauchy_dot_product(Ad, A, hermitian=True)
+        for i in range(nb):
+            for j in range(nb):
+                for n in itertools.product(range(maxo + 1), repeat=ninf):
+                    cases += 1
+                    a, b = P0[(i, j) + n], P1[(i, j) + n]
+
+                    def num(x, shp):
+                        if x is zero:
+                            return np.zeros(shp, dtype=complex)
+                        if x is one:
+                            return np.eye(shp[0], dtype=complex)
+                        return np.array([[complex(y) for y in row] for row in np.asarray(x)], dtype=complex)
+                    if not np.array_equal(num(a, (dims[i], dims[j])), num(b, (dims[i], dims[j]))):
+                        fail("product", "hermitian=True changes a value of a Hermitian product of adjoint pairs (object-dtype elements)", elements=ename, index=(i, j) + n)
     # laziness: an order of a factor is requested only if the complementary element is present
     cases += 1
     logA, logB = [], []
